@@ -13,6 +13,8 @@ import Mingus.Model.Midi
 import Mingus.Model.MidiIn
 import Mingus.Model.Sequencer
 import Mingus.Model.Export
+import Mingus.Model.TuningTable
+import Mingus.Model.Tablature
 /- Line-protocol dispatch: function name + decoded arguments → observation. -/
 namespace Mingus
 open Val
@@ -472,7 +474,99 @@ def dispatchExport : String → List Val → Option Val
         | .error e => .err e
   | _, _ => none
 
+namespace TunDec
+open Mingus.Tun Mingus.Tab Mingus.Containers
+def splitDash (x : Str) : Option (Str × Int) :=
+  match Note.splitOn '-' x with
+  | [nm, o] => (Note.parseNat? o).map fun k => (nm, k)
+  | _ => Option.none
+def openNote : Val → Option Note
+  | .str x => (splitDash x).map fun p => ⟨p.1, p.2, 1, 64⟩
+  | _ => Option.none
+def tstring : Val → Option TString
+  | .str x => (openNote (.str x)).map TString.one
+  | .list l => (l.mapM openNote).map TString.course
+  | _ => Option.none
+def tuning : Val → Option Tuning
+  | .nil => some defaultTuning
+  | .list l => l.mapM tstring
+  | _ => Option.none
+def note2 : Val → Option Note
+  | .list [.str nm, .int o] => some ⟨nm, o, 1, 64⟩
+  | .list [.str nm, .int o, .int c, .int v] => some ⟨nm, o, c, v⟩
+  | _ => Option.none
+def optInt : Val → Option (Option Int)
+  | .nil => some Option.none
+  | .int i => some (some i)
+  | _ => Option.none
+def optRat : Val → Option (Option Rat)
+  | .nil => some Option.none
+  | v => (ratOf v).map some
+def linesVal (r : Except Err (List Line)) : Val :=
+  match r with
+  | .ok l => toVal (if l = [] then [([] : Str)] else l)
+  | .error e => .err e
+def fretVal (o : Option Int) : Val := match o with | some i => .int i | Option.none => .nil
+def tbar : Val → Option TBar
+  | .list [.str _, .int c, u, .list es] => do
+      let q ← ratOf u
+      let l ← es.mapM fun e => match e with
+        | .list [v, ns] => do let d ← ratOf v; let c ← SeqDec.ncOf ns; pure (⟨d, c⟩ : TEntry)
+        | _ => Option.none
+      pure ⟨c, q, l⟩
+  | _ => Option.none
+def tbars : Val → Option (List TBar)
+  | .list [.str _, _, .list bs] => bs.mapM tbar
+  | _ => Option.none
+def entryVal (e : Tun.Entry) : Val := .list [.str e.instrument, .str e.description]
+/-- sort by (instrument, description) as the harness does -/
+def sortEntries (l : List Tun.Entry) : List Tun.Entry :=
+  sortBy (fun a b => strLt a.instrument b.instrument || (a.instrument == b.instrument && strLt a.description b.description)) l
+end TunDec
+
+def dispatchTun : String → List Val → Option Val
+  | "tun.frets", [t, n, int mf] => do
+      let tu ← TunDec.tuning t; let x ← TunDec.note2 n
+      pure (match Tun.findFrets tu x mf with | .ok l => .list (l.map TunDec.fretVal) | .error e => .err e)
+  | "tun.note", [t, int s, int f, int mf] => (TunDec.tuning t).map fun tu =>
+      match Tun.getNote tu s f mf with | .ok n => .list [.str n.name, .int n.octave] | .error e => .err e
+  | "tun.fingering", [t, .list ns, int md] => do
+      let tu ← TunDec.tuning t; let l ← ns.mapM TunDec.note2
+      pure (match Tun.findFingering tu l md with
+        | .ok r => .list (r.map fun f => .list (f.map fun p => .list [.int p.1, .int p.2]))
+        | .error e => .err e)
+  | "tun.chord", [t, .list names, int md, int mf, int mfi] => do
+      let tu ← TunDec.tuning t
+      let nm ← names.mapM fun v => match v with | .str x => some x | _ => Option.none
+      pure (match Tun.findChordFingering tu nm md mf.toNat mfi.toNat with
+        | .ok r => .list (r.map fun f => .list (f.map TunDec.fretVal))
+        | .error e => .err e)
+  | "tun.get", [.str i, .str d, ns, nc] => do
+      let a ← TunDec.optInt ns; let b ← TunDec.optRat nc
+      pure (match Tun.getTuning Tun.known i d a b with | some e => TunDec.entryVal e | Option.none => .nil)
+  | "tun.gets", [i, ns, nc] => do
+      let ins ← (match i with | .nil => some Option.none | .str x => some (some x) | _ => Option.none)
+      let a ← TunDec.optInt ns; let b ← TunDec.optRat nc
+      pure (.list ((TunDec.sortEntries (Tun.getTunings Tun.known ins a b)).map TunDec.entryVal))
+  | "tab.note", [t, n, int w] => do
+      let tu ← TunDec.tuning t; let x ← TunDec.note2 n
+      pure (TunDec.linesVal (Tab.fromNote tu x w))
+  | "tab.nc", [t, ns, int w] => do
+      let tu ← TunDec.tuning t; let c ← SeqDec.ncOf ns
+      pure (TunDec.linesVal (Tab.fromNC tu (c.getD []) w))
+  | "tab.bar", [t, b, int w] => do
+      let tu ← TunDec.tuning t; let x ← TunDec.tbar b
+      pure (TunDec.linesVal (Tab.fromBar tu x w))
+  | "tab.track", [t, tr, int w] => do
+      let tu ← TunDec.tuning t; let x ← TunDec.tbars tr
+      pure (TunDec.linesVal (Tab.fromTrack tu x w))
+  | "tab.composition", [.list [.str ttl, .str sub, .str au, .str em, .str de, .list trs], int w] => do
+      let x ← trs.mapM TunDec.tbars
+      pure (TunDec.linesVal (Tab.fromComposition ttl sub au em de x w))
+  | _, _ => none
+
 def dispatch (fn : String) (args : List Val) : Option Val :=
+  (dispatchTun fn args).orElse fun _ =>
   (dispatchExport fn args).orElse fun _ =>
   (dispatchSeq fn args).orElse fun _ =>
   (dispatchMidiIn fn args).orElse fun _ =>
